@@ -31,10 +31,9 @@ Ltac row_done :=
 Lemma wwx_ok ctx val xs ifcas exp o ms r : orow_ok r -> orow_ok (kr_row (wwx ctx val xs ifcas exp o ms r)).
 Proof. intros H. unfold wwx. brk; row_done. Qed.
 
-(* well-formed calls: Append carries a value (WriteCas(Append, nil) is outside the exercised API) *)
+(* well-formed calls: a WithMeta write names a non-zero CAS *)
 Definition wf_op (op : kop) : Prop :=
   match op with
-  | KWriteCas _ _ None _ true _ => False
   | KSetWithMeta _ nc _ _ _ _ => nc <> 0
   | KDeleteWithMeta _ nc _ _ => nc <> 0
   | _ => True
